@@ -28,7 +28,8 @@ class Proj:
 
     def __init__(self, cfg: dict, lift: Dict[str, int]):
         self.cfg = cfg
-        self.lift = {s: int(lift.get(s, 0)) for s in cfg["syms"]}
+        # "to8": whatever the model's scale, the real precision of the symbol is exactly 8 decimals
+        self.lift = {s: (8 - (len(str(cfg["scale"][s])) - 1) if lift.get(s) == "to8" else int(lift.get(s, 0))) for s in cfg["syms"]}
         self.rscale = {s: Decimal(cfg["scale"][s]) * (Decimal(10) ** self.lift[s]) for s in cfg["syms"]}
         self.offgrid: List[str] = []
 
@@ -102,16 +103,24 @@ def build_exchange(cfg: dict, pj: Proj, max_concurrent: int = 1):
             return liquidity.VolumeShareImpact(volume_limit_pct=Decimal(cfg["vlN"]) * 100 / Decimal(cfg["vlD"]),
                                                price_impact=Decimal(cfg.get("impactPct", 0)))
     if cfg["lendMode"] == "margin":
-        lend = lending.MarginLoans(cfg["quoteSym"])
+        # defaultCond: the conditions of one symbol are given as the strategy's DEFAULT conditions (only when every symbol
+        # has conditions), the others are set per symbol and take precedence
+        dsym = (cfg.get("defaultCond") or None) if all(cfg["cond"][s]["has"] for s in cfg["syms"]) else None
+        lend = lending.MarginLoans(cfg["quoteSym"], default_conditions=margin_conditions(cfg, pj, cfg["cond"][dsym]) if dsym else None)
         for s in cfg["syms"]:
             c = cfg["cond"][s]
-            if c["has"]:
+            if c["has"] and s != dsym:
                 lend.set_conditions(s, margin_conditions(cfg, pj, c))
+        if cfg.get("reuseLend"):
+            # the same strategy object served another exchange before (a previous backtest of the application)
+            exchange.Exchange(bs.backtesting_dispatcher(max_concurrent=1), {}, lending_strategy=lend)
     else:
         lend = lending.NoLoans()
     init = {s: pj.amt(s, cfg["init"][s]) for s in cfg["syms"] if cfg["init"][s] != 0}
-    ex = exchange.Exchange(d, init, liquidity_strategy_factory=liq, fee_strategy=fee, lending_strategy=lend,
-                           default_pair_info=None)
+    # the exchange keeps its built-in default pair info unless told otherwise; pairs whose two symbols are configured never
+    # fall back to it (a precision of 0 is a configured precision)
+    kw = {} if cfg.get("keepDefaultPairInfo", True) else {"default_pair_info": None}
+    ex = exchange.Exchange(d, init, liquidity_strategy_factory=liq, fee_strategy=fee, lending_strategy=lend, **kw)
     for s in cfg["syms"]:
         # precOverride: the configured precision of a symbol that is only borrowed (never traded) may be coarser than the
         # model's units, so that loan amounts finer than the symbol's precision can be expressed
@@ -229,7 +238,10 @@ async def observe(ex, cfg, pj: Proj, order_ids: List[str], loan_index: Dict[str,
             bidask.append([0, 0])
     off = pj.offgrid[:]
     pj.offgrid.clear()
-    return {"bal": bal, "hold": hold, "bor": bor, "bidask": bidask, "orders": orders, "loans": loans, "totalOk": tot_ok,
+    import decimal as _decimal
+    ctx = _decimal.getcontext()
+    return {"ctxOk": ctx.prec == 28 and ctx.rounding == _decimal.ROUND_HALF_EVEN,
+            "bal": bal, "hold": hold, "bor": bor, "bidask": bidask, "orders": orders, "loans": loans, "totalOk": tot_ok,
             "listingOk": bool(listing_ok), "loanListingOk": bool(loan_listing_ok), "offgrid": off, "extraSyms": extra_syms}
 
 
@@ -255,7 +267,8 @@ async def run_script_async(script: dict) -> dict:
             cur_t = a["t"]
             pr = cfg["pairs"][a["p"] - 1]
             vol = Decimal(a["v"]) / (pj.rscale[pr["b"]] * cfg["vs"])
-            ev = bsbar.BarEvent(T(a["t"]), bsbar.Bar(T(a["t"]) - TICK, pairs[a["p"] - 1], pj.price(pr, a["o"]),
+            # a bar of the second feed may span several ticks (another bar period): it BEGINS before bars already seen
+            ev = bsbar.BarEvent(T(a["t"]), bsbar.Bar(T(a["t"]) - TICK * int(a.get("span", 1)), pairs[a["p"] - 1], pj.price(pr, a["o"]),
                                                      pj.price(pr, a["h"]), pj.price(pr, a["l"]), pj.price(pr, a["c"]), vol))
             bar_events[id(ev)] = k
             (extra_source if a.get("dup") else sources[a["p"] - 1]).push(ev)
@@ -332,6 +345,11 @@ async def run_script_async(script: dict) -> dict:
             o = await obs()
         except Exception as e:  # noqa: BLE001 - never let the dispatcher swallow a failed observation
             crash["msg"] = f"observation failed after {kind}: {type(e).__name__}: {e}"
+            if not ok and out_steps:
+                # the request was REJECTED and yet the account can no longer be observed the way it could just before:
+                # that alone shows it did not leave everything untouched (the last good observation is repeated, flagged)
+                out_steps.append({"kind": kind, "arg": a, "ok": ok, "err": err, "obs": dict(out_steps[-1]["obs"]), "obsBroken": True})
+                executed["n"] += 1
             d.stop()
             return
         if rec is None:
